@@ -138,8 +138,41 @@ func runC17(r *Run) {
 	r.Rule("C17.R4")
 	c17Contacted(r)
 
+	// who is contacted, temporal part: the log-list filter's window table (rule set of C18.R3/R4)
+	r.Shared("C17.R4", func() {
+		r.Rule("C18.R3")
+		c18TemporallyCompatible(r)
+	})
+
 	r.Rule("C17.R5")
 	c17Policy(r)
+
+	// R6: a request started for one group must be able to outlive that group's race (another
+	// group may still need its SCT): the per-log context is derived directly from the
+	// caller's context, never from a context the race cancels when it returns.
+	r.Rule("C17.R6")
+	if fn := r.Fn("submission.groupRace"); fn != nil {
+		wc := CallsTo(fn, "context.WithCancel")
+		r.Check("groupRace:per-log-context", len(wc) >= 1, r.FnPos(fn), fmt.Sprintf("%d cancellable contexts created", len(wc)))
+		for _, c := range wc {
+			r.ExpectArg(c, "groupRace:per-log-context.parent", 0, "p0")
+		}
+		nDefer := 0
+		eachInstr(fn, func(in ssa.Instruction) {
+			if d, ok := in.(*ssa.Defer); ok && glob("dyn(context.WithCancel(*)#1)", "dyn("+r.D.D(d.Call.Value)+")") {
+				nDefer++
+			}
+		})
+		r.Check("groupRace:no-race-wide-cancel", nDefer == 0, r.FnPos(fn), fmt.Sprintf("%d deferred cancellations of a context created in the race (in-flight requests other groups wait for would be cancelled)", nDefer))
+		// the context handed to SubmitToLog is that per-log context
+		for _, k := range keysOf(r.CallersOf("iface(submission.Submitter).SubmitToLog")) {
+			if f2 := r.P.Func(k); f2 != nil {
+				for _, sc := range CallsTo(f2, "iface(submission.Submitter).SubmitToLog") {
+					r.Check("groupRace:submit.context", glob("*context.WithCancel(*)#0*", r.D.D(CallArgs(sc)[1])) || glob("*new:context.Context#*", r.D.D(CallArgs(sc)[1])), r.Where(sc), "SubmitToLog runs under the per-log context: "+r.D.D(CallArgs(sc)[1]))
+				}
+			}
+		}
+	}
 }
 
 func c17IsField(v ssa.Value, named *types.Named, field string) bool {
